@@ -147,8 +147,10 @@ def build(history, cont_mask, content_mode, rng=None, main_declares=True,
             f['meta'] = m
             if i % 2 == 0:
                 # diffs never inherit: raw bytes that are not valid in most
-                # pool codecs must come back untouched
-                f['diff'] = {'data': b'\xe9\xff\x00d%d\n' % i,
+                # pool codecs must come back untouched (and be analysed as
+                # they are: one deletion, one insertion)
+                f['diff'] = {'data': b'--- a\n+++ b\n@@ -1 +1 @@\n-a\n'
+                                     b'+\xe9\xff\x00d%d\n' % i,
                              'encoding': None, 'line_endings': 'unix',
                              'type': None}
             cur['files'].append(f)
@@ -246,6 +248,27 @@ def _check_reader(data, expected, layout, doc, obs, label):
     if d is not None:
         obs.violation('%s:%s' % (label, d[0]), doc,
                       dict(d[1], encoding_stack_probe=probe_note))
+        return
+    # the same reader object over the rewound stream: scopes start afresh
+    if len(data) < 4000 and (hash(data) % 4 == 0 or
+                             doc.get('encoding') is None):
+        import io
+        fp = io.BytesIO(data)
+        rd = DiffXReader(fp)
+        try:
+            for _ in rd:
+                pass
+            fp.seek(0)
+            again = [common.project(r) for r in rd]
+        except Exception as e:
+            obs.violation('%s:second_iteration_raised:%s' % (
+                label, type(e).__name__), doc, repr(e)[:200])
+            return
+        obs.count('reiterations_compared')
+        d = common.diff_records(expected, again, ignore=('line',))
+        if d is not None:
+            obs.violation('%s:second_iteration:%s' % (label, d[0]), doc,
+                          d[1])
 
 
 def _container_eff(layout, sec):
@@ -282,6 +305,25 @@ def run(ctx):
                     check_dom_writer(doc, obs)
                 if i % 5 == 0:
                     check_with_rejected_calls(doc, obs, rng)
+    # no encoding on the main header: main-level content stays bytes,
+    # whatever later containers declare (also on a second pass of one reader)
+    if ctx.index == 0:
+        for cenc, fenc in (('utf-16', None), (None, 'utf-32-be'),
+                           ('cp037', 'utf-16-be'), ('latin-1', 'utf-16')):
+            doc = {'encoding': None,
+                   'preamble': {'text': 'ascii only\nmain\n', 'encoding': None,
+                                'indent': 2, 'line_endings': 'unix',
+                                'mimetype': None, 'explicit': True},
+                   'meta': {'obj': {'k': 'v'}, 'encoding': None},
+                   'changes': [{'encoding': cenc,
+                                'meta': {'obj': {'c': 1},
+                                         'encoding': None if cenc else 'utf-8'},
+                                'files': [{'encoding': fenc,
+                                           'meta': {'obj': {'f': 1},
+                                                    'encoding': None if (
+                                                        fenc or cenc)
+                                                    else 'utf-8'}}]}]}
+            check_case(doc, obs, 'main_without_encoding')
     obs.exhaustive = None
     obs.count('histories_enumerated', len(hs) if ctx.index == 0 else 0)
     n = ctx.share(ctx.pick(3000, 200000))
@@ -409,6 +451,26 @@ def check_dom_writer(doc, obs):
                       doc, repr(e)[:200])
         return
     obs.count('dom_writer_bytes_checked', len(data))
+    # statistics read the diff as it is, whatever the containers declare
+    try:
+        from pydiffx.dom import DiffX
+        t = DiffX.from_bytes(want)
+        t.generate_stats()
+        for c in t.changes:
+            for fs in c.files:
+                if fs.diff and fs.diff.startswith(b'--- a\n'):
+                    st = fs.meta.get('stats', {})
+                    obs.count('diff_stats_checked')
+                    if (st.get('insertions'), st.get('deletions')) != (1, 1):
+                        obs.violation(
+                            'dom_stats_scope:diff_read_with_container_'
+                            'encoding', doc, {'stats': st,
+                                              'file_encoding': fs.encoding})
+                        return
+    except Exception as e:
+        obs.violation('dom_stats_scope:raised:%s' % common.exc_mechanism(e),
+                      doc, repr(e)[:200])
+        return
     if data != want:
         i = next((j for j in range(min(len(data), len(want)))
                   if data[j] != want[j]), min(len(data), len(want)))
